@@ -1476,11 +1476,11 @@ func (w *World) numericRegistry(names []string) map[string]*nFuncVal {
 	}
 	out := map[string]*nFuncVal{}
 	ev := &nEval{w: w}
-	for _, f := range w.FuncsIn(p) {
-		if f.Body == nil {
+	for _, file := range p.Syntax {
+		if strings.HasSuffix(w.Fset.Position(file.Pos()).Filename, "_test.go") {
 			continue
 		}
-		ast.Inspect(f.Body, func(n ast.Node) bool {
+		ast.Inspect(file, func(n ast.Node) bool {
 			kv, ok := n.(*ast.KeyValueExpr)
 			if !ok {
 				return true
